@@ -155,6 +155,28 @@ def methods(side, obj, f, e1, e2, mu, npol):
             lambda: obj.emissivity_matrix(f, e1, m, npol))
 
 
+def refl_value(a, mu):
+    """value at cosine mu of one component of a specular_reflection argument: a number, or {"$fn": [a, b]} = the function
+    theta -> a + b (theta / 90 deg)^2 of the angle in radians"""
+    if isinstance(a, dict) and "$fn" in a:
+        return a["$fn"][0] + a["$fn"][1] * (math.acos(mu) / (math.pi / 2)) ** 2
+    return float(a)
+
+
+def refl_resolve(a):
+    """JSON-able specular_reflection argument -> what is handed to the class (functions of theta for the {"$fn": ...} entries)"""
+    if isinstance(a, dict) and "$fn" in a:
+        c0, c1 = a["$fn"]
+        return lambda theta: c0 + c1 * (np.asarray(theta) / (np.pi / 2)) ** 2
+    if isinstance(a, dict):
+        return {k: refl_resolve(v) for k, v in a.items()}
+    return a
+
+
+def with_resolved(kw):
+    return {k: (refl_resolve(v) if k == "specular_reflection" else v) for k, v in kw.items()}
+
+
 def refl_arg(rng):
     """a specular_reflection argument of the reflectors and its (V, H) values (nan = None)"""
     r = rng.random()
@@ -168,6 +190,13 @@ def refl_arg(rng):
         if v in (0.0, 1.0) and rng.random() < 0.5:
             return int(v), (v, v)
         return v, (v, v)
+    def fn():      # an angle-dependent reflectivity (documented: a function of theta in radians), inside [0, 1]
+        c0 = round(float(rng.uniform(0, 0.6)), 3)
+        return {"$fn": [c0, round(float(rng.uniform(0, 1 - c0)), 3)]}
+    if r < 0.72:
+        return fn(), (float("nan"), float("nan"))
+    if r < 0.82:
+        return {"V": fn(), "H": val() if rng.random() < 0.5 else fn()}, (float("nan"), float("nan"))
     v, h = val(), val()
     return {"V": v, "H": h}, (v, h)
 
@@ -219,7 +248,9 @@ def case_line(case, adapter_eps=True):
         ps = [kw.get(k, defaults.get(k)) for k in pnames]
     elif name in ("reflector", "reflectorb"):
         a = kw.get("specular_reflection")
-        ps = [float("nan")] * 2 if a is None else ([a["V"], a["H"]] if isinstance(a, dict) else [a, a])
+        mu_ = case["mu"]
+        ps = [float("nan")] * 2 if a is None else ([refl_value(a["V"], mu_), refl_value(a["H"], mu_)] if isinstance(a, dict) and "$fn" not in a
+                                                  else [refl_value(a, mu_)] * 2)
     elif name == "coherent":
         ps = case["slab"][0] + [case["slab"][1]]
     else:
@@ -232,7 +263,7 @@ def case_impl(case, adapter_eps=True):
     side, module = case["side"], case["module"]
     name, pnames, fixed = REG[(side, module)]
     e1, e2 = complex(*case["e1"]), complex(*case["e2"])
-    kw = dict(fixed); kw.update(case["kw"])
+    kw = dict(fixed); kw.update(with_resolved(case["kw"]))
     slab = (complex(*case["slab"][0]), case["slab"][1]) if "slab" in case else None
     try:
         obj = make_obj(side, module, kw, e2 if adapter_eps else None, slab)
@@ -283,7 +314,8 @@ def correspond(ctx):
                     co.note(f"{module} all optional parameters at default")
             if REG[(side, module)][0] in ("reflector", "reflectorb"):
                 # the documented end points, always: 0 is a black body, 1 a perfect mirror (float, int, per polarisation)
-                for arg in (0.0, 0, 1.0, 1, {"V": 0.0, "H": 0.0}, {"V": 0.0, "H": 1.0}, {"V": 1, "H": 0}):
+                for arg in (0.0, 0, 1.0, 1, {"V": 0.0, "H": 0.0}, {"V": 0.0, "H": 1.0}, {"V": 1, "H": 0}, {"$fn": [0.25, 0.6]},
+                            {"V": {"$fn": [0.1, 0.3]}, "H": {"$fn": [0.2, 0.7]}}):
                     case = sample_case(rng, side, module)
                     case["kw"] = {"specular_reflection": arg}
                     co.add(f"{side}.{module}", case_line(case), case_impl(case), TOL, desc=case)
@@ -392,7 +424,7 @@ def eval_case(case):
     side, module = case["side"], case["module"]
     name, pnames, fixed = REG[(side, module)]
     e1, e2 = complex(*case["e1"]), complex(*case["e2"])
-    kw = dict(fixed); kw.update(case["kw"])
+    kw = dict(fixed); kw.update(with_resolved(case["kw"]))
     slab = (complex(*case["slab"][0]), case["slab"][1]) if "slab" in case else None
     obj = make_obj(side, module, kw, e2, slab)
     sp, tr = methods(side, obj, case["f"], e1, e2, case["mu"], case["npol"])
@@ -438,7 +470,9 @@ def check_class(case):
     if module in ("reflector", "reflector_backscatter"):
         # a prescribed reflectivity is honoured as given (0 = black body ... 1 = mirror); the default is the perfect mirror
         a = case["kw"].get("specular_reflection")
-        want = [1.0, 1.0] if a is None else ([float(a["V"]), float(a["H"])] if isinstance(a, dict) else [float(a), float(a)])
+        mu_ = case["mu"]
+        want = [1.0, 1.0] if a is None else ([refl_value(a["V"], mu_), refl_value(a["H"], mu_)] if isinstance(a, dict) and "$fn" not in a
+                                             else [refl_value(a, mu_)] * 2)
         for p, name in ((0, "V"), (1, "H")):
             if np.isfinite(s[p]) and abs(float(s[p]) - want[p]) > 1e-12:
                 out.append((f"{key0}:prescribed", f"specular_reflection={a!r} but specular_{name}={float(s[p])!r}", f"{want[p]}"))
@@ -488,7 +522,7 @@ def check_adapter(case):
     module = case["module"]
     e1, e2 = complex(*case["e1"]), complex(*case["e2"])
     _, _, fixed = REG[("substrate", module)]
-    kw = dict(fixed); kw.update(case["kw"])
+    kw = dict(fixed); kw.update(with_resolved(case["kw"]))
     sub = make_obj("substrate", module, kw, e2)
     itf = make_obj("interface", module, kw, e2)
     m = np.array([case["mu"], 0.5 * case["mu"]])
@@ -617,7 +651,7 @@ def oracle(ctx, hints, effort):
                         case["e1"], case["e2"], case["mu"] = [1.0, 0.0], [float(rng.uniform(20, 80)), float(rng.uniform(5, 40))], float(rng.uniform(0.05, 0.2))
                     record(case)
             if REG[(side, module)][0] in ("reflector", "reflectorb"):
-                for arg in (0.0, 0, 1.0, 1, {"V": 0.0, "H": 1.0}):
+                for arg in (0.0, 0, 1.0, 1, {"V": 0.0, "H": 1.0}, {"$fn": [0.25, 0.6]}, {"V": {"$fn": [0.1, 0.3]}, "H": 0.4}):
                     case = sample_case(rng, side, module)
                     case["kw"] = {"specular_reflection": arg}
                     record(case)
